@@ -16,16 +16,19 @@ package zkelog
 //@   ensures result != nil && shaped(result)
 
 //@ func (*Proof).IsValid
+//@   use bits
 //@   nopanic[C05]
 //@   inline
 //@   requires public.E != nil && public.E.L != nil && public.E.M != nil && public.ElGamalPublic != nil && public.Base != nil && public.Y != nil && (p != nil ==> shaped(p))
 
 //@ func (*Proof).Verify
+//@   use bits
 //@   nopanic[C05]
 //@   modifies hstate(hash)
 //@   requires hash != nil && hash.h != nil && public.E != nil && public.E.L != nil && public.E.M != nil && public.ElGamalPublic != nil && public.Base != nil && public.Y != nil && (p != nil ==> shaped(p))
 
 //@ func challenge
+//@   use bits
 //@   nopanic[C05]
 //@   inline
 //@   requires hash != nil && hash.h != nil && group != nil && public.E != nil && public.E.L != nil && public.E.M != nil && public.ElGamalPublic != nil && public.Base != nil && public.Y != nil && commitment != nil
